@@ -436,6 +436,15 @@ func runC14(r *Run) {
 					}
 					if isSlotLoad(st.Val) {
 						fromSlot = true
+					} else if ld, ok := st.Val.(*ssa.UnOp); ok && ld.Op == token.MUL {
+						// the other slot's value kept in a local variable in between (`atI := h.entries[j]`); whether the index
+						// table follows such a swap is R16's question
+						if al, ok := ld.X.(*ssa.Alloc); ok {
+							sts := storesInto(al)
+							if len(sts) == 1 && sts[0].Addr == ssa.Value(al) && isSlotLoad(sts[0].Val) {
+								fromSlot = true
+							}
+						}
 					}
 					_, whole := st.Addr.(*ssa.IndexAddr)
 					r.check(fromSlot && whole, fmt.Sprintf("entries-slot-store:%s#%d", short(f.String()), n), r.pos(in), "a heap slot is overwritten with the value of another heap slot (swap)",
@@ -667,6 +676,80 @@ func runC14(r *Run) {
 		}
 		r.check(all > 0 && single == 0, "hasRequestDirective:every-field-line", r.fpos(f), "the directive is searched in every Cache-Control line of the request",
 			"only the first Cache-Control line of the request is looked at: `Cache-Control: max-age=0` followed by a second line `Cache-Control: no-cache` (or no-store) is served from the cache / stored")
+	})
+
+	r.rule("R16", "the index table follows the swap: removals go through indices[entry.idx] to the entry's position, so in Swap every write indices[k] = p uses as k the handle of the entry that lies at position p after the exchange — read from the slot after the exchange, or taken from the very value that was stored there; a table updated with the handles of the old occupants sends a later remove(heapidx) to another key's slot, whose bytes are subtracted instead: the cache then holds more than MaxBytes, or the heap indexes out of range (E5: the two writes of one permutation agree)", func() {
+		f := r.Fn(cachePkg, "(indexedHeap).Swap")
+		isEntries := func(v ssa.Value) bool {
+			sl, ok := v.Type().Underlying().(*types.Slice)
+			return ok && namedTypeName(sl.Elem()) == "heapEntry"
+		}
+		// what is stored into entries[p]: described by its source (a local variable, or a loaded value)
+		type src struct {
+			local *ssa.Alloc
+			val   ssa.Value
+		}
+		srcOf := func(v ssa.Value) src {
+			if ld, ok := v.(*ssa.UnOp); ok && ld.Op == token.MUL {
+				if al, ok := ld.X.(*ssa.Alloc); ok {
+					return src{local: al}
+				}
+			}
+			return src{val: v}
+		}
+		slotVal := map[ssa.Value]src{}
+		var lastSlotStore ssa.Instruction
+		for _, b := range f.Blocks {
+			for _, in := range b.Instrs {
+				st, ok := in.(*ssa.Store)
+				if !ok {
+					continue
+				}
+				if ia, ok := st.Addr.(*ssa.IndexAddr); ok && isEntries(ia.X) {
+					slotVal[ia.Index] = srcOf(st.Val)
+					lastSlotStore = in
+				}
+			}
+		}
+		r.need(len(slotVal) == 2 && lastSlotStore != nil, "Swap stores into two slots of entries")
+		n := 0
+		for _, b := range f.Blocks {
+			for _, in := range b.Instrs {
+				st, ok := in.(*ssa.Store)
+				if !ok {
+					continue
+				}
+				ia, ok := st.Addr.(*ssa.IndexAddr)
+				if !ok || isEntries(ia.X) {
+					continue
+				}
+				if _, isIntSlice := ia.X.Type().Underlying().(*types.Slice); !isIntSlice {
+					continue
+				}
+				n++
+				pos := st.Val // the position written
+				want, known := slotVal[pos]
+				okKey := false
+				// the key: the idx field of some entry
+				switch k := stripValue(ia.Index).(type) {
+				case *ssa.UnOp:
+					if fa, ok := k.X.(*ssa.FieldAddr); ok {
+						switch base := fa.X.(type) {
+						case *ssa.IndexAddr:
+							// read from the slot: must be slot `pos`, after the exchange
+							okKey = isEntries(base.X) && base.Index == pos && b == lastSlotStore.Block() && idxIn(k) > idxIn(lastSlotStore)
+						case *ssa.Alloc:
+							okKey = known && want.local == base
+						}
+					}
+				case *ssa.Field:
+					okKey = known && want.local == nil && want.val == k.X
+				}
+				r.check(okKey, fmt.Sprintf("Swap:indices-write#%d:handle-of-the-new-occupant", n), r.pos(in), "the table is updated with the handle of the entry now at that position",
+					"Swap records a position under the handle of an entry that does not lie there after the exchange (the old occupant's): indices[] goes stale — a later heap.remove(e.heapidx) removes another key's slot and subtracts that key's size; with MaxBytes = 10 the cache ends up holding 18 bytes, other histories index out of range")
+			}
+		}
+		r.atLeast("writes into the index table in Swap", n, 2)
 	})
 
 	r.rule("R15", "every stored entry has its heap slot when MaxBytes is set: the take-out paths (expiry, invalidation, refresh, eviction) call heap.remove(e.heapidx) on the test MaxBytes > 0 alone, so the store path calls heap.put on that test alone as well — no further condition between the MaxBytes gate and put (an entry stored without a slot keeps heapidx 0: its removal takes out another key's slot and subtracts that key's bytes, the cache then holds more than MaxBytes, or the index is out of range) (E5: writer and readers under the same guard)", func() {
